@@ -2,10 +2,12 @@ use crate::verdict::Ctx;
 
 pub mod c01;
 pub mod c02;
+pub mod c03;
 pub mod c04;
 pub mod c05;
 pub mod c10;
 pub mod files;
+pub mod hist;
 pub mod query;
 
 pub fn run(ctx: &Ctx, part: &str) -> i32 {
@@ -13,6 +15,7 @@ pub fn run(ctx: &Ctx, part: &str) -> i32 {
     match ctx.id.as_str() {
         "C01" => c01::run(ctx),
         "C02" => c02::run(ctx),
+        "C03" => c03::run(ctx),
         "C04" => c04::run(ctx),
         "C05" => c05::run(ctx),
         "C10" => c10::run(ctx),
